@@ -4,6 +4,7 @@
 (* TRUE) allows - then the deviations that explain it are recorded in dev.                                *)
 (*   case  : abstract transaction t concretised on the fixture chain, res = class of State.VerifyTx       *)
 (*   mut   : accepted base t, field mutation m applied to the real protobuf, res likewise                 *)
+(*   cb    : a peer block whose coinbase transaction carries rider r is confirmed and played               *)
 (*   pair  : two structures a # b of one encoder section, concretised with position-assigned values:     *)
 (*           deq / ideq = the real signing digests / ids are equal                                        *)
 (*   shift : one byte moved across the boundary of two adjacent variable-length fields                    *)
@@ -29,6 +30,9 @@ Explain(ev) ==
          ELSE LET i == ev.res \in MutAllowedK(K0, ev.t, ev.m)
                   a == ev.res \in MutAllowedK(KC, ev.t, ev.m) IN
               R(i \/ a, IF i THEN {} ELSE DevMut(KC, ev.t, ev.m, ev.res), SetToSeq(MutAllowedK(KC, ev.t, ev.m)), ev.res)
+    [] ev.op = "cb" ->
+         R(ev.res \in {CoinbaseVerdict(K0, ev.r), CoinbaseVerdict(KC, ev.r)},
+           IF ev.res = CoinbaseVerdict(K0, ev.r) THEN {} ELSE {KFName.cb}, CoinbaseVerdict(KC, ev.r), ev.res)
     [] ev.op = "pair" ->
          LET sec == SecByName(KA, ev.v, ev.sec)
              same(K) == SecToks(K, ev.v, sec, ev.a) = SecToks(K, ev.v, sec, ev.b)
